@@ -14,7 +14,14 @@ Extends `harness.sim.scenario.Sim` locally (nothing in harness/sim is modified):
    - `processing.finalizers`: patch emptiness when the finalizer decision is taken (= at the barrier);
    - `ChangingRegistry.prematch/requires_finalizer`, `SpawningRegistry.requires_finalizer`: their results;
    - `processing.process_changing_cause`: entry time;
-   - every API request is tagged with the worker cycle that issued it (None: daemons/timers/others).
+   - every API request is tagged with the worker cycle that issued it (None: daemons/timers/others);
+   - `daemons.daemon_killer`: only to get hold of the operator's `operator_paused` ToggleSet (as C09 does).
+ * pausing (what the peering does to a lower-priority operator; here a toggle of our own in that set):
+   timeline ops `[t, "pause"]` / `[t, "resume"]`, and `sc["c07"]["pauses"]`: [{"on": "write" | "sleep" | "barrier",
+   "nth": n, "anchor": "start" | "deadline", "plan": [[ticks, on?], ...]}] — relative to the n-th own write, the n-th
+   sleeping change-handler call, the begin (or the deadline) of the n-th barrier sleep. The value of
+   `operator_paused.is_on()` is sampled where the code reads it: when the finalizer decision is taken (no
+   suspension point from there to the read if no sleep is taken) and when the barrier sleep returns.
 Run as a module it is the subprocess worker: scenarios on stdin, one JSON result line each.
 """
 from __future__ import annotations
@@ -54,8 +61,15 @@ class Sim07(scenario.Sim):
         #      "410-now" | "eof-now" (the stream is cut at once: undelivered events of the old stream are lost;
         #      kopf re-watches from the last version it saw, resp. re-lists after a compaction).
         self.breaks = [dict(b) for b in c7.get("breaks", [])]
+        self.pauses = [dict(b) for b in c7.get("pauses", [])]
+        self.toggleset: Any = None          # the operator's `operator_paused`
+        self._pause_toggle: Any = None      # our own toggle in it
+        self._pause_chain: Any = None       # toggling is serialised: requests take effect in the order they were made
+        self.pause_log: list[dict] = []     # when the state really flipped
+        self.barrier_sleeps = 0
         self.sleep_calls = 0
         self.own_writes = 0
+        self.marked_writes = 0
         self.foreign_counter = 1000
         self._own = False
         self.lives: list[dict] = []
@@ -81,6 +95,11 @@ class Sim07(scenario.Sim):
             if isinstance(action, list) and action and action[0] == "sleep" and rec.get("kind") in ("create", "update", "delete", "resume"):
                 self.sleep_calls += 1
                 self._schedule_breaks("sleep", self.sleep_calls)
+                self._schedule_pauses("sleep", self.sleep_calls)
+                for r in self.reactive:          # foreign edits while the handler sleeps: queued behind it
+                    if r.get("on") == "sleep" and r.get("nth") == self.sleep_calls:
+                        for off in r.get("offsets", []):
+                            asyncio.get_event_loop().call_later(int(off) * TICK, self._foreign_edit, str(kwargs.get("name") or "a"))
             while isinstance(action, list) and action and action[0] == "fn":
                 label = str(action[1])
                 p = kwargs.get("patch")
@@ -123,8 +142,16 @@ class Sim07(scenario.Sim):
             return
         self.own_writes += 1
         self._schedule_breaks("write", self.own_writes)
+        self._schedule_pauses("write", self.own_writes)
+        if ((out or {}).get("metadata") or {}).get("deletionTimestamp"):
+            self.marked_writes += 1
+            for r in self.reactive:     # foreign edits of a terminating object, around the framework's writes
+                if r.get("on") == "marked" and r.get("nth") == self.marked_writes:
+                    name = req["path"].rstrip("/").split("/kopfexamples/")[1].split("/")[0]
+                    for off in r.get("offsets", []):
+                        loop.call_later(int(off) * TICK, self._foreign_edit, name)
         for r in self.reactive:
-            if r.get("nth") == self.own_writes:
+            if r.get("on", "write") == "write" and r.get("nth") == self.own_writes:
                 name = req["path"].rstrip("/").split("/kopfexamples/")[1].split("/")[0]
                 for off in r.get("offsets", []):
                     loop.call_later(int(off) * TICK, self._foreign_edit, name)
@@ -135,6 +162,42 @@ class Sim07(scenario.Sim):
             if b.get("on") == on and b.get("nth") == nth and not b.get("done"):
                 b["done"] = True
                 loop.call_later(int(b.get("offset", 0)) * TICK, self._break, str(b.get("how", "410")))
+
+    def _schedule_pauses(self, on: str, nth: int, deadline: float | None = None) -> None:
+        loop = asyncio.get_event_loop()
+        for b in self.pauses:
+            if b.get("on") == on and b.get("nth") == nth and not b.get("done"):
+                b["done"] = True
+                base = 0.0
+                if b.get("anchor") == "deadline" and deadline is not None:
+                    base = max(0.0, deadline - loop.time())
+                for off, state in b.get("plan", []):
+                    loop.call_later(max(0.0, base + int(off) * TICK), self.request_pause, bool(state))
+
+    def request_pause(self, on: bool) -> None:
+        prev = self._pause_chain
+        self.mark("pause" if on else "resume")
+
+        async def go() -> None:
+            if prev is not None:
+                await asyncio.wait({prev})
+            ts = self.toggleset
+            if ts is None:
+                self.pause_log.append({"t": asyncio.get_event_loop().time(), "on": on, "noop": True})
+                return
+            if self._pause_toggle is None:
+                self._pause_toggle = await ts.make_toggle(on, name="verif-pause")
+            else:
+                await self._pause_toggle.turn_to(on)
+            self.pause_log.append({"t": asyncio.get_event_loop().time(), "wall": self.now(), "on": on})
+
+        self._pause_chain = asyncio.ensure_future(go())
+
+    def apply_op(self, op: list) -> None:
+        if op[0] in ("pause", "resume"):
+            self.request_pause(op[0] == "pause")
+            return
+        super().apply_op(op)
 
     def _break(self, how: str) -> None:
         cl = self.cluster
@@ -180,15 +243,32 @@ def _rv_of(item: Any) -> Any:
 def installed07(sim: Sim07) -> Iterator[None]:
     from kopf._cogs.aiokits import aiotime
     from kopf._cogs.structs import finalizers
+    from kopf._core.engines import daemons
     from kopf._core.intents import registries
     from kopf._core.reactor import processing, queueing
 
+    orig_killer = daemons.daemon_killer
+
+    async def daemon_killer(**kw: Any) -> Any:
+        sim.toggleset = kw["operator_paused"]
+        return await orig_killer(**kw)
+
     cyc = observe._cycle
+    # (a missing attribute — the function was renamed, inlined, moved — is not this harness's crash: what cannot be
+    # observed is reported by c07.abstract as a broken tie)
+    missing = [n for n in ("process_resource_causes", "process_changing_cause", "process_watching_cause", "process_spawning_cause",
+                           "aiotime", "finalizers") if not hasattr(processing, n)]
+
+    async def _absent(**kw: Any) -> Any:
+        raise RuntimeError("an unobservable attribute of kopf._core.reactor.processing was called by the harness")
+
     orig_worker = queueing.worker
-    orig_prc = processing.process_resource_causes
-    orig_pcc = processing.process_changing_cause       # observe's wrapper (installed before us)
-    orig_aiotime = processing.aiotime
-    orig_finalizers = processing.finalizers
+    orig_prc = getattr(processing, "process_resource_causes", _absent)
+    orig_pcc = getattr(processing, "process_changing_cause", _absent)       # observe's wrapper (installed before us)
+    orig_pwc = getattr(processing, "process_watching_cause", _absent)
+    orig_psc = getattr(processing, "process_spawning_cause", _absent)
+    orig_aiotime = getattr(processing, "aiotime", None)
+    orig_finalizers = getattr(processing, "finalizers", None)
     orig_prematch = registries.ChangingRegistry.prematch
     orig_creq = registries.ChangingRegistry.requires_finalizer
     orig_sreq = registries.SpawningRegistry.requires_finalizer
@@ -257,9 +337,14 @@ def installed07(sim: Sim07) -> Iterator[None]:
         rec["c07"] = inf = {"patch_init_empty": not kw["patch"], "pressure_entry": bool(p.is_set()) if p is not None else None,
                             "consistency_time": kw.get("consistency_time"), "t_in": loop.time(), "prematch": None,
                             "reqfin": [], "patch_mid_empty": None, "blocked": None, "ongoing": None, "pressure_mid": None,
-                            "t_mid": None, "sleep": None, "pcc_t": None, "matched": None, "t_out": None}
+                            "t_mid": None, "sleep": None, "pcc_t": None, "matched": None, "t_out": None,
+                            "paused_in": None, "paused_mid": None, "t_watch0": None, "t_watch1": None,
+                            "t_spawn0": None, "t_spawn1": None, "mid_at": None}
+        op = kw.get("operator_paused")
+        inf["paused_in"] = bool(op.is_on()) if op is not None else None
         rec["_patch"] = kw["patch"]
         rec["_pressure"] = p
+        rec["_paused"] = op
         try:
             out = await orig_prc(**kw)
             inf["matched"] = bool(out[1])
@@ -268,12 +353,50 @@ def installed07(sim: Sim07) -> Iterator[None]:
         finally:
             rec.pop("_patch", None)
             rec.pop("_pressure", None)
+            rec.pop("_paused", None)
 
     async def process_changing_cause(**kw: Any) -> Any:
         inf = info()
         if inf is not None:
             inf["pcc_t"] = asyncio.get_running_loop().time()
         return await orig_pcc(**kw)
+
+    def sample_mid(rec: dict, where: str, force: bool) -> None:
+        # The state the barrier finds: taken when the last low-level stage has ended (raw-event handlers, spawning);
+        # when neither exists, when the finalizer decision is taken. From any of these points to the consistency
+        # block there is no suspension point, and nothing that touches the merge-patch or the pressure.
+        inf = rec["c07"]
+        if not force and inf["t_mid"] is not None:
+            return
+        pr = rec.get("_pressure")
+        op = rec.get("_paused")
+        inf["patch_mid_empty"] = not rec["_patch"]
+        inf["pressure_mid"] = bool(pr.is_set()) if pr is not None else None
+        inf["t_mid"] = asyncio.get_running_loop().time()
+        inf["paused_mid"] = bool(op.is_on()) if op is not None else None
+        inf["mid_at"] = where
+
+    async def process_watching_cause(**kw: Any) -> Any:
+        rec = cyc.get()
+        if rec is None or "c07" not in rec or "_patch" not in rec:
+            return await orig_pwc(**kw)
+        rec["c07"]["t_watch0"] = asyncio.get_running_loop().time()
+        out = await orig_pwc(**kw)
+        rec["c07"]["t_watch1"] = asyncio.get_running_loop().time()
+        sample_mid(rec, "watching", True)
+        return out
+
+    async def process_spawning_cause(**kw: Any) -> Any:
+        rec = cyc.get()
+        if rec is None or "c07" not in rec or "_patch" not in rec:
+            return await orig_psc(**kw)
+        rec["c07"]["t_spawn0"] = asyncio.get_running_loop().time()
+        rec["c07"]["spawn_before_sleep"] = rec["c07"]["sleep"] is None
+        out = await orig_psc(**kw)
+        rec["c07"]["t_spawn1"] = asyncio.get_running_loop().time()
+        if rec["c07"]["sleep"] is None and rec["c07"]["pcc_t"] is None:
+            sample_mid(rec, "spawning", True)
+        return out
 
     class _AioTime:
         def __getattr__(self, name: str) -> Any:
@@ -287,9 +410,15 @@ def installed07(sim: Sim07) -> Iterator[None]:
                  "pressure": bool(wakeup.is_set()) if wakeup is not None else None}
             if inf is not None:
                 inf["sleep"] = s
+                sim.barrier_sleeps += 1
+                ct = inf.get("consistency_time")
+                sim._schedule_pauses("barrier", sim.barrier_sleeps, deadline=ct)
             out = await aiotime.sleep(delays, wakeup=wakeup)
             s["t1"] = loop.time()
             s["timed_out"] = out is None
+            rec = cyc.get()
+            op = rec.get("_paused") if rec is not None else None
+            s["paused_end"] = bool(op.is_on()) if op is not None else None   # what the code reads next (no await in between)
             return out
 
     class _Finalizers:
@@ -309,12 +438,9 @@ def installed07(sim: Sim07) -> Iterator[None]:
             out = finalizers.is_deletion_blocked(*a, **k)
             rec = cyc.get()
             if rec is not None and "c07" in rec:
-                inf = rec["c07"]
-                inf["blocked"] = bool(out)
-                inf["patch_mid_empty"] = not rec["_patch"]
-                pr = rec.get("_pressure")
-                inf["pressure_mid"] = bool(pr.is_set()) if pr is not None else None
-                inf["t_mid"] = asyncio.get_running_loop().time()
+                rec["c07"]["blocked"] = bool(out)
+                if "_patch" in rec:
+                    sample_mid(rec, "finalizers", False)
             return out
 
     def prematch(self: Any, cause: Any) -> bool:
@@ -339,10 +465,15 @@ def installed07(sim: Sim07) -> Iterator[None]:
         return out
 
     queueing.worker = worker  # type: ignore[assignment]
-    processing.process_resource_causes = process_resource_causes  # type: ignore[assignment]
-    processing.process_changing_cause = process_changing_cause  # type: ignore[assignment]
-    processing.aiotime = _AioTime()  # type: ignore[assignment]
-    processing.finalizers = _Finalizers()  # type: ignore[assignment]
+    daemons.daemon_killer = daemon_killer  # type: ignore[assignment]
+    wrappers = {"process_resource_causes": process_resource_causes, "process_changing_cause": process_changing_cause,
+                "process_watching_cause": process_watching_cause, "process_spawning_cause": process_spawning_cause,
+                "aiotime": _AioTime(), "finalizers": _Finalizers()}
+    originals = {"process_resource_causes": orig_prc, "process_changing_cause": orig_pcc, "process_watching_cause": orig_pwc,
+                 "process_spawning_cause": orig_psc, "aiotime": orig_aiotime, "finalizers": orig_finalizers}
+    for n, w in wrappers.items():
+        if n not in missing:
+            setattr(processing, n, w)
     registries.ChangingRegistry.prematch = prematch  # type: ignore[method-assign]
     registries.ChangingRegistry.requires_finalizer = creq  # type: ignore[method-assign]
     registries.SpawningRegistry.requires_finalizer = sreq  # type: ignore[method-assign]
@@ -350,10 +481,10 @@ def installed07(sim: Sim07) -> Iterator[None]:
         yield
     finally:
         queueing.worker = orig_worker  # type: ignore[assignment]
-        processing.process_resource_causes = orig_prc  # type: ignore[assignment]
-        processing.process_changing_cause = orig_pcc  # type: ignore[assignment]
-        processing.aiotime = orig_aiotime  # type: ignore[assignment]
-        processing.finalizers = orig_finalizers  # type: ignore[assignment]
+        daemons.daemon_killer = orig_killer  # type: ignore[assignment]
+        for n, o in originals.items():
+            if n not in missing:
+                setattr(processing, n, o)
         registries.ChangingRegistry.prematch = orig_prematch  # type: ignore[method-assign]
         registries.ChangingRegistry.requires_finalizer = orig_creq  # type: ignore[method-assign]
         registries.SpawningRegistry.requires_finalizer = orig_sreq  # type: ignore[method-assign]
@@ -366,6 +497,8 @@ def _slim(tr: dict) -> dict:
         cycles.append({k: c.get(k) for k in ("i", "inc", "t0", "t1", "loop_t0", "event_type", "uid", "name", "rv",
                                              "consistency_time", "invoked", "events_invoked", "result_rv", "error", "c07")}
                       | {"reason": (c.get("cause") or {}).get("reason"), "has_cause": c.get("cause") is not None,
+                         "x": ((c.get("body") or {}).get("spec") or {}).get("x"),
+                         "marked": bool(((c.get("body") or {}).get("metadata") or {}).get("deletionTimestamp")),
                          "apply": None if c.get("apply") is None else {k: c["apply"].get(k) for k in ("rv", "t", "t_end", "delays", "fns")},
                          "remaining_before": (c.get("mem_before") or {}).get("remaining_patch")})
     reqs = []
@@ -406,6 +539,7 @@ def run_scenario07(sc: dict, wall_limit: float = 40.0) -> dict:
     out = _slim(tr)
     out["lives"] = sim.lives if sim is not None else []
     out["deliveries"] = sim.deliveries if sim is not None else []
+    out["pause_log"] = sim.pause_log if sim is not None else []
     return out
 
 
